@@ -380,7 +380,7 @@ fn cases(ctx: &Ctx, curve: &str, big_n: usize, big_m: usize) -> Vec<Case> {
         v.push(Case { curve: curve.into(), work: Work::Views { cap, parties } });
     }
     v.push(Case { curve: curve.into(), work: Work::Points { cap: big_n, parties: big_m } });
-    for (cap, parties) in [(16usize, 1usize), (64, 2), (128, 1)] {
+    for (cap, parties) in [(16usize, 1usize), (64, 2), (128, 1), (600, 1), (300, 2)] {
         v.push(Case { curve: curve.into(), work: Work::Process { cap, parties } });
     }
     v.push(Case { curve: curve.into(), work: Work::Reference { cap: big_n, parties: big_m } });
